@@ -425,6 +425,47 @@ def extract_running_writers(notes: list[str]) -> list[str]:
     return sorted(out)
 
 
+def extract_unidle_writes(notes: list[str]) -> list[tuple[str, str]]:
+    """(function, literal of the status keyword or "_" when absent) for every call in the server package that passes
+    `idle_since=None` — the writes issued on behalf of an external request (send to an active run, reload)"""
+    out = set()
+    root = repo_path(SERVER)
+    for dp, _dn, fns in os.walk(root):
+        for fnm in fns:
+            if not fnm.endswith(".py"):
+                continue
+            rel = os.path.relpath(os.path.join(dp, fnm), root)
+            try:
+                tree = ast.parse(open(os.path.join(dp, fnm)).read())
+            except (OSError, SyntaxError):
+                continue
+
+            def visit(node: ast.AST, qual: str) -> None:
+                for ch in ast.iter_child_nodes(node):
+                    if isinstance(ch, (ast.ClassDef, ast.FunctionDef, ast.AsyncFunctionDef)):
+                        visit(ch, f"{qual}.{ch.name}" if qual else ch.name)
+                    else:
+                        if isinstance(ch, ast.Call):
+                            v = _kw(ch, "idle_since")
+                            if isinstance(v, ast.Constant) and v.value is None:
+                                st = _kw(ch, "status")
+                                if st is None:
+                                    lit = "_"
+                                elif isinstance(st, ast.Constant) and isinstance(st.value, str):
+                                    lit = st.value
+                                elif isinstance(st, ast.Constant) and st.value is None:
+                                    lit = "_"
+                                else:
+                                    lit = "?" + ast.unparse(st)[:40]
+                                out.add((f"{rel}:{qual}", lit))
+                        visit(ch, qual)
+
+            visit(tree, "")
+    if not out:
+        notes.append("gen/handler_status: no call with idle_since=None found in the server package")
+    return sorted(out)
+
+
 # --------------------------------------------------------------------------
 
 
@@ -447,6 +488,7 @@ def generate(notes: list[str]) -> list[str]:
     ex = extract_exit_table(notes)
     mro = extract_mro(notes)
     writers = extract_running_writers(notes)
+    unidle = extract_unidle_writes(notes)
     L = ["namespace GenHandlerStatus", ""]
     L += ["/-- `Status = Literal[...]` -/", f"def statuses : List String := {_sl(st['statuses'])}",
           "/-- `TERMINAL_STATUSES` -/", f"def terminalStatuses : List String := {_sl(st['terminal'])}",
@@ -497,5 +539,8 @@ def generate(notes: list[str]) -> list[str]:
           f"def mro : List (String × List String) := [{mrows}]", ""]
     L += ["/-- every function of the server package that passes a literal `status=\"running\"` -/",
           f"def runningWriters : List String := {_sl(writers)}", ""]
+    L += ["/-- every call of the server package that passes `idle_since=None` (the un-idle write of an external request to an",
+          "    active run, and of a reload): (function, literal `status` keyword, \"_\" = no status given) -/",
+          "def unidleWrites : List (String × String) := [" + ", ".join(f"({_s(f)}, {_s(l)})" for f, l in unidle) + "]", ""]
     L.append("end GenHandlerStatus")
     return L
